@@ -11,7 +11,7 @@ ALSO = {
  "C01": "Also driven: compileInterpolatableOTFsFromDS families where a composite is drawn as contours in some masters, skipExportGlyphs lists, colour-layer fonts (glyph-set keys differ from glyph names). Colour alternates '<glyph>.<layer>' are declared source glyphs with advances of their own. ColorLayers.tla / ColorTrace: COLR v0 / CPAL records of the colour cases equal the model.",
  "C02": "Also driven: compileInterpolatableTTFs / FromDS families with mixed glyphs holding enlarged cubic components; the unrounded TTFPreProcessor result is measured against the configured conversion error (explicit errors, small ems); a source '.notdef'. The variable TrueType font itself is read back at every master (a two-component composite whose second 2x2 differs in one master). Sources carrying the cu2qu 'already quadratic' marker compiled not in place. Cubic curves with convertCubics=False (the compile has to refuse).",
  "C03": "Every fourth case enters through compileVariableTTF or an interpolatable master; requested orders with duplicates / partial lists through the glyphOrder argument. Fonts with generated layout and Indic / right-to-left / supplementary code points (the feature writers must not touch the cmap).",
- "C04": "Every fourth case enters through a designspace function; the returned font's derived fields are compared with the saved ones; degenerate (single-point) outlines. TrueType glyph programs on simple and composite glyphs; every glyph-derived maxp count is compared with the stored glyf data.",
+ "C04": "Every fourth case enters through a designspace function; the returned font's derived fields are compared with the saved ones; degenerate (single-point) outlines. TrueType glyph programs on simple and composite glyphs; every glyph-derived maxp count is compared with the stored glyf data. The advance each CFF charstring declares equals hmtx (a glyph as wide as nominalWidthX).",
  "C05": "Also: the variable-features path of both writers (kernFeatureWriter2 through the lib key), reused writer instances, non-default language systems in any declaration order, the mark writer alongside, neutral-bidi glyphs of right-to-left scripts; KernSplitMC models the script-split writer at design level. KernDirMC models the direction-split writer (kernFeatureWriter2) the same way: C05 holds there without a signature for non-mixed pairs; F-C05-3 certified by a must-fail config. Right-to-left letters against Inherited-only marks on the second side.",
  "C06": "Also: variable anchors of 2-3 master families read back at every master, ligatures with two-digit component numbers, a second undeclared Indic script, a spacing accent declared base, reused writer instances. MarkWriter.tla: a level-B model of MarkFeatureWriter (pairing, mark classes, attachments, lookup grouping by graph colouring) explored by MarkWriterMC (1.3M states, two must-fail configs) and compared with every compiled font (model-attachment); mark-feature-present; Indic numbered ligature anchors of every routed name. Hand-written markClass statements under the writer's canonical names (this exposed defect 1eece05).",
  "C07": "Also: nested / mixed composites with lib-selected pre-filters on families, per-master skip lists through compileInterpolatableTTFs, variable fonts with public.fontInfo overrides, explicit list-valued info attributes. In-memory designspaces with unnamed / duplicate source names.",
@@ -23,9 +23,9 @@ ALSO = {
  "C13": "Also: SkipVarTrace.tla -- variable TTF / CFF2 and interpolatable masters with sparse layers, skipped-inside-skipped chains, differently built masters, a second axis with a partial-location sparse source. A non-default layer compiled on its own (layerName) with the skip list from the font lib or the argument. Static instances of a designspace (designspace list vs a stale list in the default source). SkipResolve.tla: skip-list resolution per entry point with two must-fail designs.",
  "C14": "Also: dotted-circle shaped glyph sets with an existing U+25CC, colour glyph sets (keys differ from names). Separate glyph sets given as plain dicts; non-default filter options (rememberCurveType, conversionError, ...). Empty include lists. One filter object (with include / exclude) shared by the masters of an interpolatable pre-processor run.",
  "C15": "Also: PropagateAnchors.tla, a functional model of anchor propagation bound through FilterTrace, certified against the C15 clauses by PropagateMC (48,673 glyph sets); a completeness clause; two-font histories for the transformations filter. The interpolatable pre-processor pipeline with a sparse master (propagate anchors, transform the bases, decompose) judged by PipelineTrace against hand-transformed declared sources. Flatten / decompose chains of depth 3-4 with non-identity first leaves.",
- "C16": "Also: bit-list attributes, OS/2 sub/superscript/strikeout metrics, weight / width class, version, unique ID, vendor, fixed pitch, the vhea cluster, thirteen plain name records, variable-font info overrides. Two variable fonts cut from one designspace, one with its default moved to a master with different info. Variable fonts sharing a default master with disjoint override keys. InfoOverrides.tla: copy vs alias of the base master's info across variable fonts (must-fail config).",
+ "C16": "Also: bit-list attributes, OS/2 sub/superscript/strikeout metrics, weight / width class, version, unique ID, vendor, fixed pitch, the vhea cluster, thirteen plain name records, variable-font info overrides. Two variable fonts cut from one designspace, one with its default moved to a master with different info. Variable fonts sharing a default master with disjoint override keys. InfoOverrides.tla: copy vs alias of the base master's info across variable fonts (must-fail config). Explicit openTypeNameRecords (other languages / platforms) in variable fonts with info overrides.",
  "C17": "Also: GDEF table blocks statement by statement (classes, carets by position / contour point), Devanagari abvm / blwm blocks, empty feature blocks. A caller-owned featureWriters list [...] reused across fonts. WritersList.tla: fresh list vs in-place expansion of the placeholder (must-fail config).",
- "C18": "Also: reused writer instances, designspace rule substitutions, variable anchors with a sparse layer read back at three locations, compound cursive suffixes; FeaPipeline.tla models the shared feature-file AST (fails for the pre-fix design). Contextual / ligature substitutions whose input or context holds a direction-neutral glyph. The default source not listed first, the first-listed master with other / no glyph categories.",
+ "C18": "Also: reused writer instances, designspace rule substitutions, variable anchors with a sparse layer read back at three locations, compound cursive suffixes; FeaPipeline.tla models the shared feature-file AST (fails for the pre-fix design). Contextual / ligature substitutions whose input or context holds a direction-neutral glyph. The default source not listed first, the first-listed master with other / no glyph categories. User GDEF blocks defining carets by contour point index / position next to caret anchors.",
  "C19": "Also: the empty-master rule, kerning-less masters, kerning and ordinary groups following rule swaps, instantiation failures as property failures. Non-dyadic instance locations (axis 0..10) with float noise snapped and representability demanded. Two-axis families with off-axis masters against the variation model in designspace axis order.",
  "C20": "Also: every language system (not only the default one), scripts with two OpenType tags and with three-letter tags, any declaration order, variable / merged / interpolatable entry points. Scripts chained by kerning pairs that straddle two of them, in every listing order; kerning-reachable-where-it-acts. Scripts encoded above U+FFFF.",
 }
